@@ -20,7 +20,9 @@ LEVEL_TEXT = 'exploration with an exhaustive part: all sibling kind patterns up 
 RULE = (
     "exhaustive part: every sibling kind pattern of length 0..M over kinds {x,y,z} (3^m patterns), placed at top "
     "level and below a parent node, every child position, every kind present or absent plus ANY_KIND, any_kind "
-    "on/off; Hypothesis part: random typed trees with clones and equal-comparing siblings. Oracle: list "
+    "on/off; Hypothesis part: random typed trees with clones, equal-comparing siblings and odd kind names (the empty "
+    "string, names that contain each other); part query-mutate-query evaluates all queries on ONE typed tree before a "
+    "generated mutation history (sort, remove, add, copy, ...), after a generated subset of its steps and at its end. Oracle: list "
     "comprehensions over node.children / the parent's child list filtered by kind. Non-trivial: a parent with >= 3 "
     "children of >= 2 kinds; distinct = distinct case."
 )
@@ -31,7 +33,9 @@ ASSUMPTIONS = [
 EXHAUSTIVE_NOTE = {"quick": "all kind patterns of length <= 5 over 3 kinds, top-level and nested", "thorough": "all kind patterns of length <= 8 over 3 kinds, top-level and nested"}
 
 KINDS = ["kx", "ky", "kz"]
-QUERY_KINDS = ["kx", "ky", "kz", "x", "y", "z", "child", "nope"]
+# kind names that contain each other, and the empty string (a legal kind name)
+ODD_KINDS = ["", "k", "kx", "xk", "cause", "root_cause", "child"]
+QUERY_KINDS = ["kx", "ky", "kz", "x", "y", "z", "child", "nope", "", "k", "xk", "cause", "root_cause"]
 
 
 def nm(x):
@@ -54,7 +58,7 @@ def call(fn, *a, **kw):
         return ("exc", e)
 
 
-def check_tree(tree, rec):
+def check_tree(tree, rec, nt=True):
     w = walk(tree)
     ev = 0
     interesting = False
@@ -131,8 +135,10 @@ def check_tree(tree, rec):
         chk("get_index(any_kind)" + tag, call(n.get_index, any_kind=True), lambda v: v == i, d)
         chk("is_first_sibling(any_kind)", call(n.is_first_sibling, any_kind=True), lambda v: v is (i == 0), d)
         chk("is_last_sibling(any_kind)", call(n.is_last_sibling, any_kind=True), lambda v: v is (i == len(sibs) - 1), d)
-    rec.nt(interesting)
+    if nt:
+        rec.nt(interesting)
     rec.evals += ev
+    return interesting
 
 
 def run_pattern(case, rec):
@@ -165,7 +171,7 @@ def enum_cases(tier):
 @st.composite
 def hyp_cases(draw, tier):
     opts = gen.node_opts(explicit_ids=False, kinds=True)
-    mode = draw(st.sampled_from(["clones", "eqsib"]))
+    mode = draw(st.sampled_from(["clones", "eqsib", "oddkinds"]))
     spec = draw(gen.forest_specs(max_nodes=18, max_depth=4, max_width=6, min_nodes=3, opts=opts, alphabet=["a", "b", "c", "d", "e", "f", "g"]))
     if mode == "eqsib":
         counter = [0]
@@ -182,10 +188,41 @@ def hyp_cases(draw, tier):
                 eq_(n[1])
 
         eq_(spec)
-    return {"spec": spec}
+    if mode == "oddkinds":
+        def odd_(nodes):
+            for n in nodes:
+                o = dict(n[2]) if len(n) > 2 and n[2] else {}
+                o["kind"] = draw(st.sampled_from(ODD_KINDS))
+                del n[2:]
+                n.append(o)
+                odd_(n[1])
+
+        odd_(spec)
+    return {"spec": spec, "mode": mode}
+
+
+def run_requery(case, rec):
+    """Query, rearrange the child lists (sort, move is refused on typed trees, remove, add, copy), query again."""
+    from vlib import requery
+
+    seen = []
+
+    def check(tree, rec, eng):
+        seen.append(check_tree(tree, rec, nt=False))
+
+    q = requery.run(case, rec, check)
+    rec.nt(bool(q and q >= 2 and any(seen)))
+
+
+def requery_cases(tier):
+    from vlib import requery
+
+    return requery.cases(typed=True, max_ops=6, max_nodes=10,
+                         kinds=["sort"] * 3 + ["remove"] * 3 + ["add"] * 2 + ["add_node"] * 2 + ["prepend_sibling", "move", "remove_children", "copy_to", "set_data"])
 
 
 PARTS = [
     Part("kind-patterns", run_pattern, enum=enum_cases),
-    Part("random-typed", run_random, strategy=lambda tier: hyp_cases(tier), n={"quick": 400, "thorough": 80000}),
+    Part("random-typed", run_random, strategy=lambda tier: hyp_cases(tier), n={"quick": 600, "thorough": 80000}),
+    Part("query-mutate-query", run_requery, strategy=requery_cases, n={"quick": 300, "thorough": 20000}),
 ]
